@@ -41,6 +41,16 @@ func vWrap(ctx, s string) string {
 		return "(MIT AND " + s + ")"
 	case "or":
 		return "MIT OR " + s
+	// an earlier / later term that already carries the suffix text: a rewrite that is
+	// located by searching the whole expression instead of the scan position shows here
+	case "aftersuffix":
+		return "GPL-2.0-or-later OR " + s
+	case "afteronly":
+		return "LGPL-2.1-only AND " + s
+	case "afterref":
+		return "LicenseRef-a-or-later-only OR " + s
+	case "beforesuffix":
+		return s + " OR GPL-3.0-or-later AND LGPL-2.1-only"
 	}
 	return s
 }
